@@ -311,7 +311,7 @@ def make_subset_data(data, pixels=None, return_selection=False, seed=None):
         return data
     if seed is not None:
         np.random.seed(seed)
-    tot_pix = len(data.x) * len(data.y)
+    tot_pix = flat(data).sizes['flat']
     selection = np.random.choice(tot_pix, pixels, replace=False)
     subset = flat(data).isel(flat=selection)
     subset = copy_metadata(data, subset, do_coords=False)
